@@ -19,6 +19,8 @@ type vMsg struct {
 	node uint32
 	call uint64
 	ser  int
+	// reqTok: for replies, the token of the request that caused it
+	reqTok int
 }
 
 type vMsgReflect struct {
